@@ -1119,6 +1119,12 @@ class Monitor:
         if not subseq(got, disp):
             extra = next((x for x in got if x not in disp), got[:1])
             self.bad('C15.trace', f'the exported trace lists entries that were never dispatched, or out of order; e.g. {extra}')
+        if got != execd:
+            # "lists exactly the executed events": an event that was cancelled before its turn never executed
+            k = next((i for i in range(min(len(got), len(execd))) if got[i] != execd[i]), min(len(got), len(execd)))
+            self.bad('C15.trace-exact', f'the exported trace has {len(got)} entries but {len(execd)} events were executed; '
+                     f'first difference at position {k}: trace lists {got[k] if k < len(got) else None} '
+                     f'(a cancelled event that never ran)')
         self.c['trace_entries'] = len(got)
 
     def wo_check(self):
